@@ -214,7 +214,16 @@ def run_spec(args: dict, sandbox: str) -> dict:
         argv += ["--output-path", out]
         if spec.get("precreate"):
             os.makedirs(os.path.join(out, "keep"))
-            for rel, data in (("README.md", b"# an earlier client\n"), ("keep/notes.txt", b"user notes\n"), ("pyproject.toml", b"[tool.old]\n")):
+            earlier = [("README.md", b"# an earlier client\n"), ("keep/notes.txt", b"user notes\n"), ("pyproject.toml", b"[tool.old]\n")]
+            # ... an earlier client that was USED: modules of documents past and the byte-code directories an import
+            # leaves behind, at the root (--meta none) and in the package directory of the other flavours
+            for pkg in ("", "sim_api_client/"):
+                earlier += [(pkg + "__init__.py", b""), (pkg + "client.py", b"# old\n"), (pkg + "models/__init__.py", b""), (pkg + "models/old_model.py", b"# old\n"),
+                            (pkg + "models/__pycache__/old_model.cpython-312.pyc", b"\x00pyc"), (pkg + "api/__init__.py", b""), (pkg + "api/old_tag/__init__.py", b""),
+                            (pkg + "api/old_tag/old_op.py", b"# old\n"), (pkg + "api/old_tag/__pycache__/old_op.cpython-312.pyc", b"\x00pyc"),
+                            (pkg + "api/__pycache__/__init__.cpython-312.pyc", b"\x00pyc"), (pkg + "__pycache__/client.cpython-312.pyc", b"\x00pyc")]
+            for rel, data in earlier:
+                os.makedirs(os.path.dirname(os.path.join(out, rel)), exist_ok=True)
                 with open(os.path.join(out, rel), "wb") as f:
                     f.write(data)
             if spec["precreate"] == "with-overwrite":
